@@ -217,3 +217,82 @@ Proof.
   - destruct (_ O (cfields cd)) as [[i' f']|]; [|reflexivity].
     destruct F as (k & -> & Hk & Hn). exfalso. eapply field_by_number_none; eassumption.
 Qed.
+
+(* ---- the executable reader of Spec/C06Wire.v is sound for the record grammar ---- *)
+Lemma take_varint_sound : forall n bs v rest,
+  take_varint n bs = Some (v, rest) -> bs = v ++ rest /\ varint_shape v /\ (length v <= n)%nat.
+Proof.
+  induction n as [|n IH]; intros bs v rest H; [discriminate|].
+  cbn [take_varint] in H. destruct bs as [|b r]; [discriminate|].
+  destruct (Z.ltb_spec (Z_of_byte b) 128) as [Lt|Ge].
+  - injection H as <- <-. cbn. repeat split; try lia.
+  - destruct (take_varint n r) as [[v' rest']|] eqn:E; [|discriminate].
+    injection H as <- <-. destruct (IH _ _ _ E) as (-> & Sh & Le).
+    split; [reflexivity|]. split; [|cbn [length]; lia].
+    cbn [varint_shape]. destruct v' as [|b' v'']; [cbn in Sh; tauto|]. split; [lia|exact Sh].
+Qed.
+
+Lemma take_varint_rep n bs v rest :
+  (n <= 10)%nat -> take_varint n bs = Some (v, rest) -> bs = v ++ rest /\ VarintRep (varint_value v) v.
+Proof.
+  intros Hn H. destruct (take_varint_sound _ _ _ _ H) as (E & Sh & Le).
+  split; [exact E|]. repeat split; [exact Sh|lia].
+Qed.
+
+Lemma take_bytes_sound n bs d rest : take_bytes n bs = Some (d, rest) -> bs = d ++ rest /\ length d = n.
+Proof.
+  unfold take_bytes. destruct (Nat.leb_spec n (length bs)) as [Le|Gt]; [|discriminate].
+  intros H. injection H as <- <-. split; [symmetry; apply firstn_skipn|apply firstn_length_le; exact Le].
+Qed.
+
+Lemma read_record_sound bs r rest :
+  read_record bs = Some (r, rest) -> exists a, bs = a ++ rest /\ is_record r a /\ a <> [].
+Proof.
+  unfold read_record. intros H.
+  destruct (take_varint 10 bs) as [[tb r1]|] eqn:Et; [|discriminate].
+  destruct (take_varint_rep 10 _ _ _ (le_n _) Et) as (-> & Rt).
+  set (tag := varint_value tb) in *.
+  assert (Htag : tag = tag / 8 * 8 + tag mod 8) by (pose proof (Z.div_mod tag 8 ltac:(lia)); lia).
+  assert (Hne : forall x, tb ++ x <> []).
+  { intros x. destruct Rt as (Sh & _). destruct tb; [cbn in Sh; tauto|discriminate]. }
+  destruct (Z.ltb_spec (tag / 8) 1) as [Lt|Ge]; [discriminate|].
+  destruct (Z.eqb_spec (tag mod 8) 0) as [E0|N0].
+  { destruct (take_varint 10 r1) as [[vb r2]|] eqn:Ev; [|discriminate]. injection H as <- <-.
+    destruct (take_varint_rep 10 _ _ _ (le_n _) Ev) as (-> & Rv).
+    exists (tb ++ vb). split; [apply app_assoc|]. split; [|apply Hne].
+    apply IR_varint; try assumption. rewrite <- E0, <- Htag. exact Rt. }
+  destruct (Z.eqb_spec (tag mod 8) 1) as [E1|N1].
+  { destruct (take_bytes 8 r1) as [[d r2]|] eqn:Eb; [|discriminate]. injection H as <- <-.
+    destruct (take_bytes_sound _ _ _ _ Eb) as (-> & Ld).
+    exists (tb ++ d). split; [apply app_assoc|]. split; [|apply Hne].
+    apply IR_fixed64; try assumption. rewrite <- E1, <- Htag. exact Rt. }
+  destruct (Z.eqb_spec (tag mod 8) 5) as [E5|N5].
+  { destruct (take_bytes 4 r1) as [[d r2]|] eqn:Eb; [|discriminate]. injection H as <- <-.
+    destruct (take_bytes_sound _ _ _ _ Eb) as (-> & Ld).
+    exists (tb ++ d). split; [apply app_assoc|]. split; [|apply Hne].
+    apply IR_fixed32; try assumption. rewrite <- E5, <- Htag. exact Rt. }
+  destruct (Z.eqb_spec (tag mod 8) 2) as [E2|N2]; [|discriminate].
+  destruct (take_varint 10 r1) as [[lb r2]|] eqn:El; [|discriminate].
+  destruct (take_varint_rep 10 _ _ _ (le_n _) El) as (-> & Rl).
+  destruct (take_bytes (Z.to_nat (varint_value lb)) r2) as [[d r3]|] eqn:Eb; [|discriminate].
+  injection H as <- <-. destruct (take_bytes_sound _ _ _ _ Eb) as (-> & Ld).
+  exists (tb ++ lb ++ d). split; [rewrite <- !app_assoc; reflexivity|]. split; [|apply Hne].
+  apply IR_len; try assumption.
+  - rewrite <- E2, <- Htag. exact Rt.
+  - replace (Zlength d) with (varint_value lb); [exact Rl|].
+    unfold Zlength. rewrite Ld. rewrite Z2Nat.id; [reflexivity|apply varint_value_nonneg].
+Qed.
+
+Theorem read_records_sound : forall fuel bs rs, read_records fuel bs = Some rs -> is_records rs bs.
+Proof.
+  induction fuel as [|fuel IH]; intros bs rs H.
+  - destruct bs; [injection H as <-; constructor|discriminate].
+  - cbn [read_records] in H. destruct bs as [|b bs]; [injection H as <-; constructor|].
+    destruct (read_record (b :: bs)) as [[r rest]|] eqn:Er; [|discriminate].
+    destruct (read_records fuel rest) as [rs'|] eqn:Es; [|discriminate]. injection H as <-.
+    destruct (read_record_sound _ _ _ Er) as (a & -> & Hr & _).
+    constructor; [exact Hr|apply IH; exact Es].
+Qed.
+
+Corollary parse_records_sound bs rs : parse_records bs = Some rs -> is_records rs bs.
+Proof. apply read_records_sound. Qed.
